@@ -85,7 +85,7 @@ func delayFor(I time.Duration, f int) float64 {
 func TestC07(t *testing.T) {
 	world.Quiet()
 	run := rep.New("C07", "exploration",
-		"seeded histories over per-step (probe outcome in {ok, slow-ok, 404, 500, refuse, timeout}) x (time advance: to due, not yet due, +35 s, +65 s) x (scheduler tick | forced round | proxy-detected failure) for check_interval in {1,2,5,10,30 s}, driven against the production stack in simulated time; after every step status, next-last delay, real probe count and model-listing count are compared with a reference model; each history ends with a bounded-recovery suffix. distinct = distinct (interval, step sequence)")
+		"seeded histories over per-step (probe outcome in {ok, slow-ok, 404, 500, refuse, timeout}) x (time advance: to due, not yet due, +35 s, +65 s) x (scheduler tick | forced round | proxy-detected failure) for check_interval in {1,2,5,10,30,90 s, 10 min}, driven against the production stack in simulated time; after every step status, next-last delay, real probe count and model-listing count are compared with a reference model; each history ends with a bounded-recovery suffix. distinct = distinct (interval, step sequence)")
 	run.Assume("time is simulated by rewinding NextCheckTime/LastChecked through the exported repository API and the health breaker through the verif hook; every generated advance keeps >= 3 s clear of a due time or breaker threshold")
 	run.Assume("a proxy-detected failure may or may not count as a 'failed check' for the backoff schedule (the statement does not say); both are accepted")
 	seed := rep.Seed()
@@ -141,7 +141,7 @@ func TestC07(t *testing.T) {
 const checkTimeout = 600 * time.Millisecond
 
 func oneHistory(run *rep.Run, rng *rand.Rand, h, nsteps int) {
-	I := []time.Duration{1 * time.Second, 2 * time.Second, 5 * time.Second, 10 * time.Second, 30 * time.Second}[rng.Intn(5)]
+	I := []time.Duration{1 * time.Second, 2 * time.Second, 5 * time.Second, 10 * time.Second, 30 * time.Second, 90 * time.Second, 10 * time.Minute}[rng.Intn(7)]
 	b := backend.NewStd(fmt.Sprintf("h%d", h), []string{"m1"}, nil)
 	defer b.Close()
 	bornAt := time.Now()
@@ -565,7 +565,7 @@ func keysI(m map[int]bool) []int {
 // schedule.
 func multiEndpointHistory(run *rep.Run, rng *rand.Rand, h int) {
 	n := 3 + rng.Intn(3)
-	ivs := []time.Duration{1 * time.Second, 2 * time.Second, 5 * time.Second, 10 * time.Second, 30 * time.Second}
+	ivs := []time.Duration{1 * time.Second, 2 * time.Second, 5 * time.Second, 10 * time.Second, 30 * time.Second, 90 * time.Second}
 	var backs []*backend.Std
 	var eps []world.Endpoint
 	I := make([]time.Duration, n)
